@@ -2,20 +2,36 @@
 ID = "C18"
 HARNESS = "h_c18"
 KEEP_FIRST = 1
+# every case is a few dozen cache operations (milliseconds): a case that runs for seconds hangs (a list that
+# has become cyclic); the default 60 s deadline would make a run with many such cases take tens of minutes
+ENV = {"VH_TIMEOUT": "4"}
+SHRINK_BUDGET = 80
 TRUSTED = [
     "Lean 4 kernel; axioms of every theorem audited (propext, Classical.choice, Quot.sound at most)",
-    "hand-written model lean/CppUModel/Model/Cache.lean, tied to src/CppUTest/SimpleStringInternalCache.cpp by the h_c18 correspondence (this run)",
-    "constants extractor translate/extract_cache.py (class sizes, cached limit, struct sizes) regenerating Gen/CacheConstants.lean",
-    "underlying TestMemoryAllocator contract: live blocks are disjoint, ids fresh (hypothesis Fresh)",
+    "translate/extract_cache_code.py: parser + lowering of the list code of SimpleStringInternalCache.cpp into the statement "
+    "language of Model/CacheSyntax.lean (callees inlined with parameter binding, `return` out of inlined loops via a flag "
+    "local); its output is executed by the interpreter as THE model of this run's correspondence, so a translator bug shows "
+    "up as a disagreement with the real code",
+    "the interpreter lean/CppUModel/Model/CacheHeap.lean (semantics of the statement language: cells created by an allocation, "
+    "removed by free_memory, access to a missing cell is an error), tied to the compiled code by the h_c18 correspondence",
+    "constants extractor translate/extract_cache.py (class sizes, cached limit, struct sizes, destructor statement order, "
+    "adaptor bodies and name) regenerating Gen/CacheConstants.lean",
+    "hand-written models of the object life cycle (create/destroy, GlobalSimpleStringCache, SimpleStringCacheAllocator, "
+    "SimpleString as client) in Model/Cache.lean, tied by the h_c18 correspondence (this run)",
+    "underlying TestMemoryAllocator contract: live blocks are disjoint, ids fresh, the list-node allocation is not NULL "
+    "(hypotheses Fresh / FreshH; the code does not check for NULL)",
     "the cache's node table is taken from defaultMallocAllocator() in the constructor and is not observed",
 ]
 ASSUMPTIONS = [
     "LP64 struct sizes (SimpleStringMemoryBlock = 16 bytes)",
     "a buffer released with a size of another class than it was requested with is outside the property's quantifier",
+    "fuel of the interpreter (4000 in the driver; histories have at most ~450 operations) exceeds number of blocks + 60 (theorems: any fuel >= blocks + history length + 60)",
 ]
-RULE = ("histories of alloc/dealloc/clearcache/clearall over sizes dense around the class boundaries "
-        "32/64/96/128/256, releases in arbitrary order, foreign pointers and wrong sizes inside the same class; "
-        "non-trivial = at least one reuse from a free list or one unknown release; distinct = distinct op sequences")
+RULE = ("histories of alloc/dealloc/clearcache/clearall/hasfree over sizes dense around the class boundaries "
+        "32/64/96/128/256, releases in arbitrary order, foreign pointers and wrong sizes inside the same class; two cache "
+        "objects one after the other; the global cache object with buffers requested through its allocator adaptor, real "
+        "SimpleString objects (lengths at the class boundaries, append, destroy), another string allocator installed before "
+        "destruction; non-trivial = at least one reuse from a free list or one unknown release; distinct = distinct op sequences")
 
 SIZES = [0, 1, 2, 31, 32, 33, 63, 64, 65, 95, 96, 97, 127, 128, 129, 255, 256, 257, 300, 1024]
 BOUNDS = [32, 64, 96, 128, 256]
@@ -65,7 +81,9 @@ def gen_case(rng, n, malformed=False):
             # releasing the same cached buffer again (it sits in a free list, so it is "unknown")
             label, size = rng.choice(released)
             ops.append("dealloc %s %d" % (label, size))
-        elif x < 0.94:
+        elif x < 0.90:
+            ops.append("hasfree %d" % rng.choice(SIZES))
+        elif x < 0.95:
             ops.append("clearcache")
             released = []
         else:
@@ -93,14 +111,39 @@ def gen_stale(rng):
     return ops
 
 
+# string lengths whose buffer (length + 1) sits on / next to a class boundary
+STRLENS = [0, 1, 30, 31, 32, 62, 63, 64, 94, 95, 96, 126, 127, 128, 254, 255, 256, 257, 400]
+
+
 def gen_global(rng, n):
-    """the global cache object: strings are allocated/released through its SimpleStringCacheAllocator and the
-    object is destroyed while some buffers (cached, free-listed, uncached) are still outstanding"""
+    """the global cache object: buffers are allocated/released through its SimpleStringCacheAllocator, real
+    SimpleString objects are created / appended to / destroyed while it is installed, another string allocator
+    may be installed before the object is destroyed, and the object is destroyed while some buffers (cached,
+    free-listed, uncached) are still outstanding"""
     ops = ["gcreate"]
     live = []
+    strs = []
     k = 0
-    for _ in range(n):
-        if rng.random() < 0.6 or not live:
+    swap_at = rng.randrange(n + 1) if rng.random() < 0.35 else -1
+    swapped = False
+    for j in range(n):
+        if j == swap_at:
+            ops.append("gswap")
+            swapped = True
+        x = rng.random()
+        if x < 0.04:
+            ops.append("names")
+        elif x < 0.40 and not swapped:
+            y = rng.random()
+            if y < 0.5 or not strs:
+                k += 1
+                ops.append("sstr %d s%d" % (rng.choice(STRLENS) if rng.random() < 0.85 else rng.randint(0, 600), k))
+                strs.append("s%d" % k)
+            elif y < 0.75:
+                ops.append("sappend %s %d" % (rng.choice(strs), rng.choice([0, 1, 2, 31, 32, 33, 64, 200])))
+            else:
+                ops.append("sdel %s" % strs.pop(rng.randrange(len(strs))))
+        elif x < 0.75 or not live:
             size = rng.choice(SIZES) if rng.random() < 0.8 else rng.randint(1, 1024)
             k += 1
             ops.append("alloc %d g%d" % (size, k))
@@ -109,7 +152,22 @@ def gen_global(rng, n):
             i = rng.randrange(len(live))
             label, size = live.pop(i)
             ops.append("dealloc %s %d" % (label, size))
+    if swap_at == n:
+        ops.append("gswap")
     ops.append("gdestroy")
+    return ops
+
+
+def gen_two_objects(rng):
+    """state must not survive from one cache object to the next: the second object does not know the first
+    one's buffers and warns again (its own one-time flag)"""
+    ops = gen_case(rng, rng.choice([3, 8, 20]))
+    ops = [o for o in ops if o not in ("destroy",)]
+    ops += ["dealloc foreign%d %d" % (rng.randrange(8), rng.choice(SIZES)), "clearall", "destroy"]
+    second = gen_case(rng, rng.choice([3, 8, 20]))
+    # fresh labels for the second object
+    second = [o.replace(" b", " c") if o.startswith(("alloc", "dealloc b")) else o for o in second]
+    ops += second[:1] + ["dealloc foreign%d %d" % (rng.randrange(8), rng.choice(SIZES))] + second[1:]
     return ops
 
 
@@ -140,15 +198,17 @@ def generate(rng, tier):
         out.append(("malformed", gen_case(rng, rng.choice([5, 20, 40]), malformed=True)))
     for i in range(10):
         out.append(("stale", gen_stale(rng)))
-    for i in range(n // 8):
+    for i in range(n // 3):
         out.append(("global", gen_global(rng, rng.choice([0, 1, 3, 8, 20, 40]))))
+    for i in range(n // 20):
+        out.append(("twoobj", gen_two_objects(rng)))
     out.append(("nested", ["gnested"]))
     return out
 
 
 def translate(ctx):
-    from translate import extract_cache
-    return extract_cache.run()
+    from translate import extract_cache, extract_cache_code
+    return (extract_cache.run() or []) + (extract_cache_code.run() or [])
 
 
 def nontrivial(r):
@@ -160,22 +220,47 @@ def nontrivial(r):
 
 
 def observe(r, rep):
+    ops = [l.split()[0] for l in r.ops]
+    if "gswap" in ops:
+        rep.count("branch.other_allocator_installed_before_gdestroy")
+    last_op = ""
+    for l in r.impl:
+        if l.startswith("> "):
+            last_op = l.split()[1]
+        elif l.startswith("ufree") and last_op == "dealloc":
+            rep.count("branch.uncached_release")
+        elif l.startswith("ufree") and last_op == "gdestroy":
+            rep.count("branch.blocks_returned_by_global_destructor")
+        elif l.startswith("newbuf"):
+            rep.count("branch.string_append_realloc")
+        elif l == "hasfree 1":
+            rep.count("branch.hasfree_true")
     for i, l in enumerate(r.impl):
-        if l.startswith("> alloc") and i + 1 < len(r.impl) and r.impl[i + 1].startswith("ret "):
+        if l.startswith(("> alloc", "> sstr")) and i + 1 < len(r.impl) and r.impl[i + 1].startswith("ret "):
             rep.count("branch.reuse_from_free_list")
         elif l == "warn":
             rep.count("branch.unknown_release_warning")
         elif l.startswith("ualloc"):
             rep.count("branch.underlying_alloc")
 
-LEVEL_TEXT = ("Machine-checked Lean 4 theorems over an executable model of SimpleStringInternalCache, for every history "
-              "of alloc/dealloc/clearCache/clearAll of any length: conservation of underlying blocks (nothing invented, "
-              "nothing forgotten, nothing freed twice), no buffer handed out while in use, returned buffer at least the "
-              "requested size and from the request's own class, clearAll returns everything, unknown release = one-time "
-              "warning with unchanged state. The model is tied to the code on every run by a differential harness "
-              "(real cache, recording allocator, ASan/UBSan) and by regenerated constants; the implementation's own "
-              "observations are judged by an independent specification oracle.")
-LEVEL_NOTE = ("Trusted: Lean kernel; the hand-written model (validated against the code by the correspondence of this run); "
-              "the extractor for class sizes / cached limit; that distinct live underlying blocks do not overlap (platform "
-              "allocator). Not carried by theorems: byte-level overlap of the compiled code (observed under ASan).")
-TECHNIQUE = "Lean 4 invariant/conservation proofs over an executable model + differential correspondence harness + regenerated constants"
+LEVEL_TEXT = ("Machine-checked Lean 4 theorems, for every history of alloc/dealloc/clearCache/clearAll of any length: "
+              "(1) list level: conservation of underlying blocks (nothing invented, nothing forgotten, nothing freed twice), no "
+              "buffer handed out while in use (per step and along whole histories), returned buffer at least the requested size "
+              "and from the request's own class, clearAll / destruction of the global object return everything, unknown release = "
+              "one-time warning with unchanged state; (2) pointer level: alloc, dealloc, clearCache, clearAll and getIndexForCache "
+              "are REGENERATED from SimpleStringInternalCache.cpp on every run into a small statement language (callees inlined) and "
+              "interpreted over a heap of list cells; theorems `stepH_refines` / `runH_refines` prove that these regenerated "
+              "programs never touch a dead or NULL pointer, terminate on every chain, and produce exactly the list model's "
+              "allocator traffic, return values and warnings while keeping a heap that represents the list state - so (1) holds of "
+              "what the source says at check time, and an edit of a statement breaks a proof. The interpreter running the "
+              "regenerated programs is also the model that is diffed against the real cache (recording allocator, ASan/UBSan) on "
+              "every generated history, together with the hand list model; the implementation's own observations are judged by an "
+              "independent specification oracle.")
+LEVEL_NOTE = ("Trusted: Lean kernel; the translator of the list code and the interpreter's semantics (both validated by the "
+              "correspondence of this run); the extractor for constants and the destructor shape; the hand models of object "
+              "construction/destruction, of the global object/adaptor and of SimpleString as a client (correspondence only); that "
+              "distinct live underlying blocks do not overlap and the allocator does not return NULL. Only observed: the node "
+              "table allocation (defaultMallocAllocator), the warning's text beyond its first line, byte-level overlap of the "
+              "compiled code (ASan).")
+TECHNIQUE = ("Lean 4 refinement proofs (pointer-level interpreter of source-regenerated code = list model, loops by induction on "
+             "the chain) + invariant/conservation proofs + differential correspondence harness + regenerated constants")
